@@ -131,7 +131,14 @@ fn pick_edit(p: &crate::gen::sem::Program, class: &str, pick: usize) -> Option<E
             let c = &p.typed_sites;
             let (file, range, ty, ctx) = c.get(pick % c.len().max(1))?;
             let new = wrong_typed(ty).to_string();
-            Some(Edit { file: *file, range: *range, site: (range.0, range.0 + new.len()), text: new, what: format!("{ctx} of type {} replaced by a value of an inconvertible type", ty.render()) })
+            let mut site = (range.0, range.0 + new.len());
+            if *ctx == "list-element" {
+                // the elements of a list literal no longer agree: which of them is the odd one is a matter
+                // of view (TableGen reports the end of the literal), the site is the literal
+                let literal = p.spans.iter().filter(|s| s.0 == *file && s.2 == "list-literal" && s.1 .0 <= range.0 && range.1 <= s.1 .1 && s.1 .1 - s.1 .0 > range.1 - range.0).min_by_key(|s| s.1 .1 - s.1 .0)?;
+                site = (literal.1 .0, literal.1 .1 + new.len() - (range.1 - range.0));
+            }
+            Some(Edit { file: *file, range: *range, site, text: new, what: format!("{ctx} of type {} replaced by a value of an inconvertible type", ty.render()) })
         }
         "operator-too-many-operands" | "operator-too-few-operands" => {
             const FIXED: [&str; 14] = ["!sub", "!size", "!if", "!shl", "!tolower", "!eq", "!lt", "!not", "!empty", "!ne", "!tail", "!head", "!interleave", "!con"];
@@ -378,7 +385,7 @@ impl Property for C13 {
                 let mut tmpl = message_template(&d.message);
                 // narrower root cause: the (innermost) uncommon construct the diagnostic points into
                 let fi = p.files.iter().position(|x| crate::ws::abs(&x.0) == path);
-                if let Some(sp) = p.spans.iter().filter(|sp| Some(sp.0) == fi && sp.1 .0 <= s && s < sp.1 .1).min_by_key(|sp| sp.1 .1 - sp.1 .0) {
+                if let Some(sp) = p.spans.iter().filter(|sp| sp.2 != "list-literal" && Some(sp.0) == fi && sp.1 .0 <= s && s < sp.1 .1).min_by_key(|sp| sp.1 .1 - sp.1 .0) {
                     tmpl = format!("{}|{}", sp.2, tmpl);
                 }
                 return Verdict::Fail(Failure::new(
